@@ -180,6 +180,7 @@ class AudioIO(object):
     import pyaudio
     self._pa = pa = pyaudio.PyAudio()
     self._threads = []
+    self._finishing = [] # Threads already unregistered that might be alive
     self.wait = wait # Wait threads to finish at end (constructor parameter)
     self._recordings = []
 
@@ -239,6 +240,10 @@ class AudioIO(object):
             thread.stop()
           thread.join()
 
+        # Waits the threads that had already unregistered themselves
+        for thread in list(self._finishing):
+          thread.join()
+
         # Closes all recording RecStream instances
         while self._recordings:
           recst = self._recordings[-1]
@@ -279,6 +284,8 @@ class AudioIO(object):
     """
     with self.lock:
       self._threads.remove(thread)
+      self._finishing = [th for th in self._finishing if th.is_alive()]
+      self._finishing.append(thread) # Still alive until "run" returns
 
   def recording_finished(self, recst):
     """
